@@ -301,13 +301,44 @@ pub fn check(thorough: bool, _seed: u64) -> Check {
         classes: vec![],
         bounds: json!({"types": "Piecewise<Poly0>, Piecewise<Poly3>", "segments": "2,7,8,9,16,33,100,257", "ends": "start + running sum of h, and start + h*i; h in {0.1,0.3,0.7,0.01,0.25,1e-3,3}; start in {0,0.1,-0.4,1e3}", "formats": FORMATS}),
     };
+    // every number of segments 5..300 (520 thorough): count headers, escape bytes of compact length prefixes, block boundaries
+    let every = Phase {
+        name: "every-number-of-segments",
+        units: 2 * FORMATS.len(),
+        split: 0,
+        body: Box::new(move |unit, cx| {
+            let fmt = unit % FORMATS.len();
+            let n = 5 + cx.choose(if thorough { 516 } else { 296 });
+            cx.nontrivial();
+            cx.evals(1);
+            if cx.sampling() {
+                cx.sample(json!({"segments": n, "format": FORMATS[fmt]}));
+            }
+            let r = if unit / FORMATS.len() == 0 {
+                let nums: Vec<f64> = (0..n).flat_map(|i| [i as f64 * 0.5 - 3.0, 1.5 + (i % 97) as f64]).collect();
+                let v = pw_from_nums::<Poly0>(&nums);
+                let place = pw_from_nums::<Poly0>(&other_nums(&nums[..nums.len() - 2]));
+                let r = guard(|| trip_in(&v, fmt, place));
+                finish(&v, r, &nums, |b| pw_nums(b), fmt)
+            } else {
+                let nums: Vec<f64> = (0..n).flat_map(|i| [i as f64 * 0.5 - 3.0, 1.5, -2.25 + (i % 13) as f64, 0.125, 3.0]).collect();
+                let v = pw_from_nums::<Poly3>(&nums);
+                let place = pw_from_nums::<Poly3>(&other_nums(&nums));
+                let r = guard(|| trip_in(&v, fmt, place));
+                finish(&v, r, &nums, |b| pw_nums(b), fmt)
+            };
+            r.map_err(|(what, d)| Fail::new(format!("Piecewise with {n} segments: {what}"), json!({"segments": n, "format": FORMATS[fmt], "observation": if d.to_string().len() > 3000 { json!("(omitted)") } else { d }})))
+        }),
+        classes: vec![],
+        bounds: json!({"types": "Piecewise<Poly0>, Piecewise<Poly3>", "segments": if thorough {"every n from 5 to 520"} else {"every n from 5 to 300"}, "formats": FORMATS}),
+    };
     let mut extra = serde_json::Map::new();
     extra.insert("serde_types".into(), json!(names));
     Check {
         id: "C18",
         rule: "choice tree: (type, format) unit x number contents; each leaf serializes one real value and deserializes it again; non-trivial = contents with a zero, subnormal, extreme or infinite number".into(),
         assumptions: vec!["serde_json (feature float_roundtrip), serde_cbor and borsh are the environment the property is stated against".into()],
-        phases: vec![ph, many, grids],
+        phases: vec![ph, many, grids, every],
         extra,
         controls: vec![("bit comparison distinguishes -0.0 from 0.0", Box::new(|| if all_bits_eq(&[0.0], &[-0.0]) { Err("not live".into()) } else { Ok(()) }))],
     }
